@@ -16,6 +16,10 @@ CHECKS['C05'] = dict(
     level='proof',
     text='Theorems in Coq over ALL histories (any length, any interleaving) of the four operations hyper-h2 applies to a WindowManager (DATA received, bytes acknowledged, manual increment, local INITIAL_WINDOW_SIZE change), for all maxima: emitted increments never exceed bytes acknowledged and never lift the window above its maximum; no stall and the 2^31-1 ceiling are proved for the histories outside two refuted patterns (known findings F-C05-1, F-C05-2, each with a vm_compute witness replayed on the real code). The model is proved equal (GenEq) to the functions AST-translated from windows.py / stream.py on every run, and random + boundary histories are compared step by step with the real objects.',
     design='7.C05', technique='Coq invariant proofs by induction over operation histories of AST-translated kernels + differential correspondence')
+CHECKS['C03'] = dict(
+    level='proof',
+    text='Theorems in Coq over the connection model (every finite program of API calls and received frames, unbounded): the connection send window never goes negative; a DATA frame is emitted only if its flow-controlled length (padding+1 included) fits the stream window, the connection window and MAX_FRAME_SIZE before the call; local_flow_control_window is the minimum; one byte more raises FlowControlError and leaves the whole state untouched; complete characterisation of which operations change the connection window (footprint lemmas for every handler). The two send_data comparisons are extracted from connection.py on every run; the model is compared step by step with the real H2Connection on result / output / flow-control state, and an independent wire-history window oracle runs on the implementation traces.',
+    design='7.C03', technique='Coq invariant by induction over operation histories + extracted guards + differential correspondence')
 NA_REASON = {}
 def main():
     checks = []
